@@ -1,4 +1,5 @@
 import GixModel.Lemmas.C12d
+import GixModel.Lemmas.C12Lf
 import GixModel.Model.C12
 /-
 C12 — Object lookups stay correct while the object directory is repacked.  PROPERTY THEOREMS ONLY.
@@ -11,10 +12,14 @@ accepted by `run` from `Sys.init cfg n` — any number of slots `n`, no bound on
 `Cfg.fixed` is the code as repaired in /repo (83cc28f87, 819a694a5, 549e3a391, d7545aec6); the last
 three theorems show that the two protocol repairs are needed.
 
-Safety is proved for all interleavings.  The liveness half of the property ("with refresh enabled an
-object on disk throughout is found") is NOT proved: `found_if_present_quiescent` states it for the
-interruption-free runs of the modelled control flow and is left as a `def`; on the real code it is
-evaluated by the harness (scripted scenarios and the multi-threaded stress runs).
+Safety is proved for all interleavings on that system.  The liveness half ("with refresh enabled an object
+on disk throughout is found") is proved on a second transition system, `Model/C12Live.lean`: the retry loop of
+`contains`/`try_find` (`load_one_index`, `load_next_index` with its three counters, the consolidation as one
+atomic event, the final marker comparison, `collect_snapshot`), any number of handles, every interleaving,
+the directory changing at will: `found_if_present_throughout` / `not_found_only_if_absent` — a lookup never
+ends with "not found" while an index file holding the object was on disk during the whole lookup — with
+`announce_needed` and `marker_recheck_needed` showing that the code as found did (/repo e8b782f1a, eab114340).
+`found_if_present_quiescent` (the same for the interruption-free runs of `Model/C12.lean`) stays a `def`.
 -/
 namespace GixModel.Props.C12
 open GixModel.C12
@@ -192,7 +197,7 @@ example :
        [Ev.lp5 0])).map (fun s => (s.rets.length, decide ((s.handles 0).pc = RPc.idle)))
     = some (0, true) := by decide
 
-/-! ### Liveness (not proved) -/
+/-! ### Liveness on the scenario model (stated, not proved) -/
 
 /-- The liveness half for interruption-free runs of the modelled control flow: after any scenario
 (`runSteps`, the API calls and directory changes of `Model/C12.lean`), a `contains` through a live handle
@@ -204,5 +209,138 @@ def found_if_present_quiescent : Prop :=
     w.haux[h]? = some a → a.alive = true → a.refresh = true →
     w.listing.length ≤ n → f ∈ w.listing → o ∈ objsOfFile w f →
     ∃ fuel w', (apiContains fuel h o).run w = Except.ok ("1", w')
+
+/-! ### Liveness: the retry loop does not give up while the object is on disk -/
+
+section Liveness
+open GixModel.C12.Live
+
+/-- In every reachable state of the retry-loop system (repaired code; any number of handles, any
+interleaving, index files added and removed at will) a lookup that ended with "not found" has no index file
+that held the requested object and was on disk during the whole lookup (`alive`, see
+`found_if_present_throughout` for what it stands for). -/
+theorem not_found_only_if_absent (sched : List Live.Ev) (s : Live.S) (h : Nat)
+    (hrun : Live.run (Live.S.init Live.Cfg.fixed) sched = some s) (hpc : (s.hs h).pc = Live.Pc.notFound) :
+    (s.hs h).alive = [] :=
+  ((reachable_inv hrun).h h).nf hpc
+
+/-- The liveness half of C12, for every interleaving: after any history `pre`, handle `h` starts a lookup of
+object `o` while index file `F`, which holds `o`, is on disk; whatever happens then (`post`: steps of this and
+of any other handle, new handles, index files added and removed) — as long as `F` is not removed and `h` does
+not start another lookup, the lookup of `h` is never in the state "not found": the loop goes on until it
+finds the object. -/
+theorem found_if_present_throughout (pre post : List Live.Ev) (h o F : Nat) (s0 s1 s : Live.S)
+    (hpre : Live.run (Live.S.init Live.Cfg.fixed) pre = some s0)
+    (hdisk : F ∈ s0.disk) (hholds : Live.holds s0 F o = true)
+    (hstart : Live.step s0 (Live.Ev.start h o) = some s1)
+    (hpost : Live.run s1 post = some s)
+    (hkeep : ∀ ev ∈ post, ev ≠ Live.Ev.envRemove F ∧ ∀ o', ev ≠ Live.Ev.start h o') :
+    (s.hs h).pc ≠ Live.Pc.notFound := by
+  intro hpc
+  have hinv : Inv s := run_inv (step_inv (reachable_inv hpre) hstart) post hpost
+  have hF := alive_run post hpost hkeep (alive_start hstart hdisk hholds).1
+  rw [(hinv.h h).nf hpc] at hF
+  cases hF
+
+/-- Without the announcement before the claim (the code before /repo e8b782f1a) the schedule S1 ends with
+"not found" for an object whose index file was on disk all the time; in the repaired code that schedule is
+not possible (handle 0 has to wait for the announced load). -/
+theorem announce_needed :
+    view0 (Live.run (Live.S.init { announceFirst := false, recheckMarker := true }) schedS1)
+      = some (Live.Pc.notFound, [0], [0])
+    ∧ Live.holds ((Live.run (Live.S.init { announceFirst := false, recheckMarker := true }) schedS1).getD
+        (Live.S.init Live.Cfg.fixed)) 0 7 = true
+    ∧ view0 (Live.run (Live.S.init Live.Cfg.fixed) schedS1) = none := by
+  refine ⟨by decide, by decide, by decide⟩
+
+/-- Without the final comparison of the marker (the code before /repo eab114340) the schedule S5 ends with
+"not found" for an object whose index file was on disk all the time; with it the same schedule goes on and
+finds the object. -/
+theorem marker_recheck_needed :
+    view0 (Live.run (Live.S.init { announceFirst := true, recheckMarker := false }) schedS5)
+      = some (Live.Pc.notFound, [0], [0])
+    ∧ view0 (Live.run (Live.S.init Live.Cfg.fixed)
+        (schedS5 ++ [Live.Ev.recheck 0, Live.Ev.collLoad 0, Live.Ev.collMarker 0, Live.Ev.collRead 0, Live.Ev.scan 0]))
+      = some (Live.Pc.found, [0], [0]) := by
+  refine ⟨by decide, by decide⟩
+
+/-- The progress measure of the retry loop: `Live.T` = 300·(handles+2)·(work left: one for a directory
+listing that differs from the published slot map index, plus the index files not yet claimed for loading,
+over all slot map indices) + the positions of all handles in their loops (with a credit for every stale
+marker / state id / index pointer a handle still has to notice).  In every reachable state every step of
+every lookup (`Ev.isLookup`: everything but directory changes, new handles and new lookups) lowers it. -/
+theorem lookup_step_lowers_measure (sched : List Live.Ev) (s s' : Live.S) (ev : Live.Ev)
+    (hrun : Live.run (Live.S.init Live.Cfg.fixed) sched = some s) (hl : ev.isLookup = true)
+    (hstep : Live.step s ev = some s') : Live.T s' < Live.T s :=
+  step_T (reachable_inv hrun) hl hstep
+
+/-- Hence, while the directory is at rest and no new lookups start, all handles together take at most
+`Live.T s` steps from a reachable state `s` — in any interleaving; no retry loop spins forever. (With a
+directory that changes finitely often this holds for each of the finitely many stretches between two
+changes.) -/
+theorem lookup_steps_bounded (pre post : List Live.Ev) (s s' : Live.S)
+    (hpre : Live.run (Live.S.init Live.Cfg.fixed) pre = some s)
+    (hl : ∀ ev ∈ post, ev.isLookup = true) (hpost : Live.run s post = some s') :
+    post.length ≤ Live.T s := by
+  have := run_T (reachable_inv hpre) post hl hpost
+  omega
+
+/-- No deadlock: in every reachable state, if the lookup of some handle is not over, a lookup step is
+possible — the handle's own, or, where it waits for running loads (`num_indices_currently_being_loaded`),
+the next step of a thread that is loading. -/
+theorem lookup_never_stuck (sched : List Live.Ev) (s : Live.S) (h : Nat)
+    (hrun : Live.run (Live.S.init Live.Cfg.fixed) sched = some s) (hnd : (s.hs h).pc.isDone = false) :
+    ∃ ev, ev.isLookup = true ∧ (Live.step s ev).isSome = true :=
+  can_proceed (reachable_inv hrun) h hnd
+
+/-- Every reachable state can be run to completion by lookup steps (so the hypothesis `hdone` of
+`found_if_present_quiescent_live` is satisfiable after every history). -/
+theorem lookups_run_to_completion (pre : List Live.Ev) (s : Live.S)
+    (hpre : Live.run (Live.S.init Live.Cfg.fixed) pre = some s) :
+    ∃ post s', (∀ ev ∈ post, ev.isLookup = true) ∧ Live.run s post = some s'
+      ∧ (∀ ev, ev.isLookup = true → Live.step s' ev = none) :=
+  complete_run (reachable_inv hpre)
+
+/-- The liveness half of C12 with termination. After any history `pre` (any number of handles in the
+middle of their lookups, any directory changes), handle `h` starts a lookup of object `o` while index file
+`F`, which holds `o`, is on disk.  Hypotheses, explicitly: finite environment — during `post` the directory
+is at rest and no further lookups are started (`hl`); fairness — the run is not cut short: `post` is
+continued until no lookup step is possible any more (`hdone`; by `lookup_never_stuck` that is the only way a
+run of lookup steps can end, by `lookup_steps_bounded` it ends after at most `Live.T s1` steps, whatever the
+interleaving).  Then the lookup of `h` ended with `found`. -/
+theorem found_if_present_quiescent_live (pre post : List Live.Ev) (h o F : Nat) (s0 s1 s : Live.S)
+    (hpre : Live.run (Live.S.init Live.Cfg.fixed) pre = some s0)
+    (hdisk : F ∈ s0.disk) (hholds : Live.holds s0 F o = true)
+    (hstart : Live.step s0 (Live.Ev.start h o) = some s1)
+    (hl : ∀ ev ∈ post, ev.isLookup = true)
+    (hpost : Live.run s1 post = some s)
+    (hdone : ∀ ev, ev.isLookup = true → Live.step s ev = none) :
+    (s.hs h).pc = Live.Pc.found ∧ post.length ≤ Live.T s1 := by
+  have hinv1 : Inv s1 := step_inv (reachable_inv hpre) hstart
+  have hinv : Inv s := run_inv hinv1 post hpost
+  have hlen := run_T hinv1 post hl hpost
+  refine ⟨?_, by omega⟩
+  have hd : (s.hs h).pc.isDone = true := by
+    cases hdn : (s.hs h).pc.isDone with
+    | true => rfl
+    | false =>
+      obtain ⟨ev, hev, hsome⟩ := can_proceed hinv h hdn
+      rw [hdone ev hev] at hsome; cases hsome
+  have hnidle : (s.hs h).pc ≠ Live.Pc.idle :=
+    not_idle_run post hpost (by rw [start_pc hstart]; intro hc; cases hc)
+  have hnnf : (s.hs h).pc ≠ Live.Pc.notFound :=
+    found_if_present_throughout pre post h o F s0 s1 s hpre hdisk hholds hstart hpost (by
+      intro ev hev
+      have := hl ev hev
+      refine ⟨?_, ?_⟩
+      · intro hc; rw [hc] at this; cases this
+      · intro o' hc; rw [hc] at this; cases this)
+  cases hpc : (s.hs h).pc <;> rw [hpc] at hd hnidle hnnf <;> first
+    | rfl
+    | exact absurd rfl hnidle
+    | exact absurd rfl hnnf
+    | cases hd
+
+end Liveness
 
 end GixModel.Props.C12
